@@ -24,6 +24,9 @@ def mp_children():
 
 
 def main():
+    import warnings
+    warnings.filterwarnings("ignore", category=SyntaxWarning)      # (CPython's remarks about the broken snippets the families compile)
+    os.environ.setdefault("PYTHONWARNINGS", "ignore::SyntaxWarning")
     ap = argparse.ArgumentParser()
     ap.add_argument("prop")
     ap.add_argument("--tier", default=None)
